@@ -488,7 +488,9 @@ func (d *Datastore) DeviationMgr(ctx context.Context) {
 
 func (d *Datastore) runDeviationUpdate(ctx context.Context, dm map[string]sdcpb.DataServer_WatchDeviationsServer) {
 
-	sep := "/"
+	// separator for the path keys below. Key values are arbitrary strings and can well contain "/"
+	// (ethernet-1/1); NUL cannot occur in a YANG string, so different paths never yield the same key.
+	sep := "\x00"
 
 	// send deviation START
 	for _, dc := range dm {
